@@ -1734,7 +1734,23 @@ def c11(rep, tier, seed, wd, replay):
         return False
     o2 = dict(opts)
 
-    live_imports = lambda keys_, rng_: live_import_histories(keys_, rng_, tier)
+    def refused_writes(keys_, rng_):
+        """the store refuses a write (badger's ErrBlockedWrites, as while it closes) on single requests: whatever is then
+        answered, the export states exactly what was released — before and after a restart"""
+        accts_, perms_, admins_ = hist.std_config(keys_, nacct=4, locked=False)
+        cfg_ = hist.config_lines(accts_, perms_, admins_)
+        H = []
+        for kind_ in ("att", "prop"):
+            n0_, n1_ = "n:" + hx(accts_[0].path), "k:" + accts_[1].pk.hex()
+            if kind_ == "att":
+                ops_ = [att_line("client1", n0_, 1, 2, 0), att_line("client1", n0_, 2, 3, 0, faults="b"), "export", att_line("client1", n1_, 4, 5, 0, faults="b"),
+                        "export", "restart", "export", att_line("client1", n0_, 2, 3, 1), att_line("client1", n1_, 4, 5, 1), "export"]
+            else:
+                ops_ = [prop_line("client1", n0_, 10, 0), prop_line("client1", n0_, 11, 0, faults="b"), "export", prop_line("client1", n1_, 7, 0, faults="b"),
+                        "export", "restart", "export", prop_line("client1", n0_, 11, 1), prop_line("client1", n1_, 7, 1), "export"]
+            H.append({"cfg": cfg_, "ops": ops_, "accts": accts_, "opts": {}})
+        return H
+    live_imports = lambda keys_, rng_: live_import_histories(keys_, rng_, tier) + refused_writes(keys_, rng_)
     run_hist_property(rep, tier, seed, wd, "C11", SIGN_KINDS + ("export", "restart", "importsvc"), o2, sizes, judges=[judge, judge_after_import], corpus=False,
                       nontrivial=lambda h: sum(1 for o in h["ops"] if o == "export") >= 2, extra_hist=live_imports)
     # (b) legacy gob records
@@ -2102,6 +2118,29 @@ def c15(rep, tier, seed, wd, replay):
             found = True
         elif crashed_:
             rep.broken.append(("implementation-crash:conc-wide", err_[-1500:], False))
+    # stores in which SEVERAL keys hold records that cannot be read or decoded: batches naming them fail (closed) and return;
+    # everything else naming those keys afterwards completes too
+    caccts, cperms, cadm = hist.std_config(hist.interop_keys(dh), nacct=6, locked=False)
+    craws = [(caccts[0].pk + b"\x02", bytes([1]) + bytes(10)), (caccts[1].pk + b"\x02", bytes([9, 1, 2, 3])), (caccts[2].pk + b"\x02", bytes([1]) + bytes(3)),
+             (caccts[3].pk + b"\x02", bytes([0x7f, 0x00])), (caccts[0].pk + b"\x03", bytes([1]) + bytes(3))]
+    ccfg = hist.config_lines(caccts, cperms, cadm, craws)
+    for pgo in ([2, None] if tier != "thorough" else [2, 3, 16, None]):
+        r_ = rng.fork()
+        cops = [(0, conc_.atts_op([conc_.att_item(conc_.name(a_), 1, 5, 0) for a_ in caccts[:6]])),
+                (1, conc_.atts_op([conc_.att_item(conc_.name(a_), 1, 6, 1) for a_ in reversed(caccts[:5])])),
+                (2, conc_.atts_op([conc_.att_item(conc_.name(caccts[3]), 1, 7, 2), conc_.att_item(conc_.name(caccts[0]), 1, 7, 2)]))] + \
+               [(3, conc_.att_op(conc_.name(a_), 1, 9, 3)) for a_ in caccts[:5]] + [(3, conc_.prop_op(conc_.name(caccts[0]), 9, 0))]
+        sl = conc_.scenario_lines([], "-", cops, 0)
+        io_, crashed_, err_ = _ri(dh, wd, ["reset"] + ccfg + sl, env={"GOMAXPROCS": str(pgo)} if pgo else None, timeout=600)
+        rep.dist("scenario", "corrupt-records")
+        rep.count("corrupt|%s" % pgo, True)
+        if any(o.startswith("TIMEOUT") for o in io_):
+            rep.violation("deadlock", "concurrent requests did not all complete within the watchdog (several keys hold unreadable records): " + [o for o in io_ if o.startswith("TIMEOUT")][0],
+                          {"config": ccfg, "scenario": sl, "gomaxprocs": pgo})
+            found = True
+            break
+        elif crashed_:
+            rep.broken.append(("implementation-crash:conc-corrupt", err_[-1500:], False))
     if first_bad is not None:
         h, (i, op, il, ml) = first_bad
         rep.broken.append(("correspondence:lock-trace(model lock protocol vs ruler+locker calls)",
@@ -2381,6 +2420,43 @@ def c18(rep, tier, seed, wd, replay):
                            "decoded": {"perms": [[bytes.fromhex(x).decode() if x not in ("-", ".") else "" for x in l.split()[1:3]] + [l.split()[3]] for l in cfg if l.startswith("perm ")]}})
             found = True
             break
+    # accounts created by key generation while something goes wrong around the commit (the wallet store of one participant
+    # fails a read right after the account was written): whatever the generation then reports, an account that IS in a
+    # participant's wallet is listed by that participant to a client entitled to it
+    if REPLAY is None or "lines" in REPLAY:
+        from common import run_impl as _ri
+        import dkg as _dkg
+        ids_ = [1, 2, 3]
+        stage = []
+        for to_ in ids_:
+            acct_ = "DW/sr%d" % to_
+            stage.append(("store-read-fault-at-%d" % to_, [_dkg.cluster_line(ids_), _dkg.gen_line(1, acct_, 2, 3, "storeread:commit:0:%d" % to_), "holds %s" % hx(acct_)] +
+                          ["ilist %d %s %s" % (i_, hx("client1"), hx("DW")) for i_ in ids_] + [_dkg.gen_line(3, acct_ + "b", 2, 3), "holds %s" % hx(acct_ + "b")] +
+                          ["ilist %d %s %s" % (i_, hx("client1"), hx("DW")) for i_ in ids_]))
+        if REPLAY is not None:
+            stage = [("replay", REPLAY["lines"])]
+        for tag_, lines_ in stage:
+            io_, cr_, er_ = _ri(dh, wd, lines_, engine="dkg", timeout=600)
+            rep.count("dkg-list|" + tag_, True)
+            if cr_ or len(io_) < len(lines_):
+                rep.broken.append(("implementation-crash:dkg-list", er_[-1500:], False))
+                continue
+            held = {}      # instance -> set of accounts in its wallet
+            for l_, o_ in zip(lines_, io_):
+                f_ = l_.split()
+                if f_[0] == "holds":
+                    nm_ = bytes.fromhex(f_[1]).decode()
+                    for tok in o_.split():
+                        i_, st_, fe_ = tok.split(":")
+                        if st_ == "true":
+                            held.setdefault(i_, set()).add(nm_)
+                elif f_[0] == "ilist":
+                    listed = set(o_.split(" ", 1)[1].split(",")) if " " in o_ and o_.split(" ", 1)[1] else set()
+                    miss = held.get(f_[1], set()) - listed
+                    if miss and not found:
+                        rep.violation("listing-MISSING", "an account that is in the participant's wallet (created by key generation) is not listed to a client entitled to it: %s" % sorted(miss),
+                                      {"scenario": tag_, "lines": lines_[:lines_.index(l_) + 1], "impl": io_[:lines_.index(l_) + 1]})
+                        found = True
     if results:
         cfg, ops, impl, model = results[0]
         rep.sample({"ops": [o[:160] for o in ops[:3]], "impl": [x[:160] for x in impl[:3]]})
@@ -2629,6 +2705,42 @@ def c19(rep, tier, seed, wd, replay):
                 rep.violation("wrong-identity", "the outcome of a served RPC is not the one the certificate's subject name is entitled to",
                               {"credential": kind, "method": meth, "wallet": wallet, "result": res, "subject": cn, "allowed": allowed})
                 found = True
+    # identities of any length: permitted clients whose names are 63, 64, 65 and 200 bytes long, and callers whose certificate
+    # subject EXTENDS a permitted name (or is a prefix of it) — through the real gRPC API with certificates minted for exactly
+    # those subjects; only the exact subject is entitled to anything
+    ka_ = hist.interop_keys(dh)
+    la_, _, _ = hist.std_config(ka_, nacct=3, locked=False)
+    n0_ = "n:" + hx(la_[0].path)
+    r32_ = (bytes([0xA1]) * 32).hex()
+    domr_ = (DOM_RANDAO + bytes(28)).hex()
+    LH = []
+    for ln_ in (63, 64, 65, 200):
+        nm_ = ("client-" + "x" * 300)[:ln_]
+        perms_ = [(nm_, "Wallet 1", ["All"])]
+        ops_ = []
+        for who in (nm_, nm_ + ".attacker.example", nm_ + "x", nm_[:-1], nm_[:32], nm_.upper()):
+            ops_.append("sign %s - %s %s,%s -" % (hx(who), n0_, domr_, r32_))
+            ops_.append("list %s %s" % (hx(who), hx("Wallet 1")))
+        LH.append({"cfg": ["nocache", "viagrpc"] + hist.config_lines(la_, perms_, []), "ops": ops_, "accts": la_, "opts": {}, "permitted": nm_})
+    if REPLAY is not None:
+        rh_ = replay_history()
+        LH = [rh_] if rh_ else []
+    if LH:
+        crashed_, err_ = engines.exec_histories(dh, wd, LH)
+        if crashed_:
+            rep.broken.append(("implementation-crash:long-names", err_[-1500:], False))
+        for h in LH:
+            rep.count("longnames|%d" % len(h.get("permitted", "")), True)
+            for (i, op, il, ml) in h["bad"]:
+                who = bytes.fromhex(op.split()[1]).decode(errors="replace")
+                served_ = il.startswith("S:") or (op.startswith("list") and il.startswith("S ") and il.split()[1] != "-")
+                if served_ and who != h.get("permitted") and not found:
+                    rep.violation("wrong-identity", "a caller whose certificate subject (%d bytes) is not a permitted client's name was served as if it were" % len(who),
+                                  {"config": h["cfg"], "ops": h["ops"][:i + 1], "impl": il[:120], "model": ml[:120]})
+                    found = True
+            if h["bad"] and not found and first_bad is None:
+                i, op, il, ml = h["bad"][0]
+                rep.broken.append(("correspondence:long-names(model vs gRPC API)", json.dumps({"config": h["cfg"], "ops": h["ops"][:i + 1], "impl": il[:200], "model": ml[:200]}), False))
     rep.cov["exhaustive"] = True
     rep.cov["methods"] = len({r_[1] for r_ in rows})
     rep.cov["credential_kinds"] = len(kinds)
@@ -2873,6 +2985,11 @@ def c12(rep, tier, seed, wd, replay):
                 # success is only possible inside the bounds n/2 < t <= n, n >= 1 (the Lean predicate generateAccepts,
                 # = the translated guard of OnGenerate)
                 t_, n_ = int(f[4]), int(f[5])
+                npeers_ = len([l_ for l_ in r_["lines"] if l_.startswith("cluster ")][0].split()[1].split(","))
+                if n_ > npeers_ and not found:
+                    rep.violation("generated-with-fewer-participants", "a generation for %d participants reported success on a cluster of %d peers" % (n_, npeers_),
+                                  {"scenario": r_["tag"], "lines": r_["lines"][:i + 1], "impl": r_["impl"][:i + 1]})
+                    found = True
                 if not (n_ != 0 and t_ <= n_ and not (t_ <= n_ // 2)):
                     rep.violation("generated-outside-bounds", "a generation with threshold %d for %d participants reported success" % (t_, n_),
                                   {"scenario": r_["tag"], "lines": r_["lines"][:i + 1], "impl": r_["impl"][:i + 1]})
